@@ -33,7 +33,12 @@ def expr(fn, ref, depth=12, keep_casts=False, _memo=None):
     op = i.op
     d = i.d
     if op == "load":
-        return ("load", expr(fn, d["ptr"], depth - 1, keep_casts))
+        p = d["ptr"]
+        if p.startswith("@"):
+            g = fn.pdb.glob_in(fn.unit, p[1:])
+            if g and g.get("const") and isinstance(g.get("init"), int):
+                return ("c", g["init"])
+        return ("load", expr(fn, p, depth - 1, keep_casts))
     if op == "getelementptr":
         e = expr(fn, d["base"], depth - 1, keep_casts)
         path = d["path"]
